@@ -88,11 +88,14 @@ def gen(rng, tier):
             'want_ranks': rng.random() < 0.5, 'want_expvel': rng.random() < 0.3,
             'tracers': rng.choice([['LRG'], ['LRG'], ['LRG', 'ELG'], ['ELG', 'QSO']]), 'force_mt': rng.random() < 0.2,
             'n_chunks': n_chunks, 'chunk': chunk,
+            'id_base': rng.choice([0, 0, 0, 2 ** 53 + 1, 2 ** 62 + 12345]), 'id_dtype': rng.choice(['i8', 'i8', 'u8']),
             'veldev_1d': rng.random() < 0.15, 'poison': rng.choice(['A', 'B']), 'extra_rank_cols': rng.random() < 0.7}
 
 
 # per-halo attribute functions f_k(id): injective in id
-def F(hid):
+def F(hid, base=0):
+    if base:
+        hid = [int(x) - base for x in np.asarray(hid, dtype=object).ravel()]
     hid = np.asarray(hid, dtype=np.float64)
     return {
         'x_L2com': np.stack([hid * 0.01, hid * 0.02 + 1, -hid * 0.015], axis=-1),
@@ -141,8 +144,11 @@ def write_files(case, root):
               ('randoms', 'f8')]
         if case['veldev_1d']:
             dt = [d if d[0] not in ('randoms_exp', 'randoms_gaus_vrms') else (d[0], 'f4') for d in dt]
+        base = int(case.get('id_base', 0))
+        if case.get('id_dtype', 'i8') == 'u8':
+            dt[0] = ('id', 'u8')          # what prepare_sim writes from CompaSO catalogues
         h = np.zeros(len(sl['ids']), dtype=dt)
-        h['id'] = sl['ids']
+        h['id'] = np.array([base + i for i in sl['ids']], dtype=dt[0][1])
         for k, v in f.items():
             if case['veldev_1d'] and k in ('randoms_exp', 'randoms_gaus_vrms'):
                 h[k] = v[:, 2] if len(sl['ids']) else v.reshape(0)
@@ -169,7 +175,7 @@ def write_files(case, root):
             p['vel'][r] = [s * 1.0, -s * 2.0, s * 0.5]
             p['halo_vel'][r] = fh_['v_L2com'][0]
             p['halo_mass'][r] = fh_['N'][0] * header['ParticleMassHMsun']
-            p['halo_id'][r] = hid
+            p['halo_id'][r] = base + hid
             p['Np'][r] = 10 + (s % 7)
             p['downsample_halo'][r] = 0.25 + (s % 3) * 0.25
             p['randoms'][r] = (s * 0.754877666) % 1.0
@@ -183,7 +189,7 @@ def write_files(case, root):
                     p['ranksp'][r] = (s % 17) / 17.0
                     p['ranksr'][r] = (s % 19) / 19.0
                     p['ranksc'][r] = (s % 23) / 23.0
-            truth_parts.append((i, hid, s))
+            truth_parts.append((i, base + hid, s))
         with h5py.File(os.path.join(sub, stem_p + '_new.h5'), 'w') as fh:
             fh.create_dataset('particles', data=p)
     sim_params = {'sim_name': sim, 'sim_dir': os.path.join(root, 'sims'), 'output_dir': os.path.join(root, 'mocks'),
@@ -228,13 +234,14 @@ def run(case):
     else:
         nj = int(np.ceil(nslab / case['n_chunks']))
         mine = list(range(case['chunk'] * nj, min((case['chunk'] + 1) * nj, nslab)))
-    ids = sorted(i for k in mine for i in case['slabs'][k]['ids'])
+    base = int(case.get('id_base', 0))
+    ids = sorted(base + i for k in mine for i in case['slabs'][k]['ids'])
     hid = np.asarray(hd['hid'])
     if hid.tolist() != ids:
         kind = 'ids-not-sorted' if sorted(hid.tolist()) == ids else 'wrong-halo-set'
         violation(out, kind, site, {'got': hid.tolist()[:10], 'expected': ids[:10]})
         return out
-    f = F(hid)
+    f = F(hid, base)
     Mpart = header['ParticleMassHMsun']
     vd = f['randoms_exp'] if case['want_expvel'] else f['randoms_gaus_vrms']
     if case['veldev_1d']:
@@ -267,7 +274,7 @@ def run(case):
             # which halo does the value on this row really belong to?
             owner = None
             for cand in ids:
-                fc = F([cand])
+                fc = F([cand], base)
                 key = {'hpos': 'x_L2com', 'hvel': 'v_L2com', 'hmultis': 'multi_halos', 'hrandoms': 'randoms',
                        'hsigma3d': 'sigmav3d_L2com', 'hrvir': 'r98_L2com', 'hdeltac': 'deltac_rank', 'hfenv': 'fenv_rank',
                        'hshear': 'shear_rank'}.get(k)
@@ -285,19 +292,19 @@ def run(case):
         violation(out, 'particle-order', site, 'particle host ids are not the concatenation of the slab files')
         return out
     pinds = np.asarray(pd['pinds'])
-    if len(tp) and (pinds.min() < 0 or pinds.max() >= len(hid) or not np.array_equal(hid[pinds], phid)):
+    if len(tp) and (pinds.min() < 0 or pinds.max() >= len(hid) or hid.astype(np.uint64)[pinds].tolist() != phid.astype(np.uint64).tolist()):
         violation(out, 'particle-host-index', site, 'hid[pinds] != phid')
         return out
     s = np.array([t[2] for t in tp], dtype=np.float64)
     if len(tp):
         pe = {'ppos': np.stack([s * 0.01, s * 0.02, s * 0.03], axis=1), 'pvel': np.stack([s, -2 * s, 0.5 * s], axis=1),
-              'phvel': F(phid)['v_L2com'], 'phmass': F(phid)['N'] * Mpart, 'prandoms': (s * 0.754877666) % 1.0,
+              'phvel': F(phid, base)['v_L2com'], 'phmass': F(phid, base)['N'] * Mpart, 'prandoms': (s * 0.754877666) % 1.0,
               'pweights': 1.0 / (10 + (s % 7)) / (0.25 + (s % 3) * 0.25)}
         if case['want_AB']:
-            pe['pdeltac'] = F(phid)['deltac_rank']
-            pe['pfenv'] = F(phid)['fenv_rank']
+            pe['pdeltac'] = F(phid, base)['deltac_rank']
+            pe['pfenv'] = F(phid, base)['fenv_rank']
         if case['want_shear']:
-            pe['pshear'] = F(phid)['shear_rank']
+            pe['pshear'] = F(phid, base)['shear_rank']
         if case['want_ranks']:
             pe['pranks'] = (s % 11) / 11.0
             pe['pranksv'] = (s % 13) / 13.0
@@ -326,6 +333,10 @@ def run(case):
 
 def shrink(case):
     c = copy.deepcopy(case)
+    if case.get('id_base'):
+        yield dict(c, id_base=0)
+    if case.get('id_dtype', 'i8') != 'i8':
+        yield dict(c, id_dtype='i8')
     if len(case['slabs']) > 1:
         for i in range(len(case['slabs'])):
             sl = case['slabs'][:i] + case['slabs'][i + 1:]
